@@ -1,0 +1,21 @@
+//go:build verif
+// +build verif
+
+package xuperos
+
+import (
+	"github.com/patrickmn/go-cache"
+
+	"github.com/xuperchain/xupercore/kernel/engines/xuperos/common"
+)
+
+// VerifNewChain wraps an already initialised chain context (ledger, state, contract manager, ...)
+// in a Chain without starting an engine, a network or a miner, so that a verification harness can
+// call the real PreExec / SubmitTx in-process (build tag verif).
+func VerifNewChain(ctx *common.ChainCtx) *Chain {
+	return &Chain{
+		ctx:       ctx,
+		log:       ctx.XLog,
+		txIdCache: cache.New(TxIdCacheExpired, TxIdCacheGCInterval),
+	}
+}
